@@ -25,7 +25,7 @@ PROPS = {
         family="split",
         theorems=T("C09", "split_eq_spec", "split_char_eq_spec", "split_cstr_eq_spec", "split_cstr_ascii", "split_length_le", "join_split",
                    "empty_sep_whole", "tokenize_eq_spec", "tokens_nonempty", "tokens_no_delim", "tokens_maximal",
-                   "replace_scans_agree", "replace_eq_spec", "replace_len", "replace_empty", "split_forms_agree", "replace_forms_agree",
+                   "replace_scans_agree", "replace_eq_spec", "replace_len", "replace_empty", "split_forms_agree", "split_pieces_utf8", "split_forms_agree_utf8", "replace_forms_agree",
                    "arg_toString_assume", "terminates", "ci_folds_ascii_only", "fold_only_ascii_letters", "spec_fuel_irrelevant", "pinned_split_empty_sep_witness", "pinned_replace_revalidates_witness"),
         rule="split: every subject over {a,A,(b),',',NUL,C3,A9} up to length 4 (quick) / 5 (thorough) x every separator over {a,A,',',NUL,A9} up to length 2 plus "
              "self-overlapping / longer ones x max_splits in {0,1,2,3,SIZE_MAX} x both case modes x ST::string / const char* / char overloads; tokenize: every "
